@@ -11,6 +11,25 @@ from ..gfi.common import run_for
 def run(chk, prog):
     n, obs = run_for(chk, prog, "C14", ALL)
     chk.floor("obligations tagged C14", n, 24)
+    # every wrapping of the combinator (return value, and choices via ChoiceMap.mask -> Choice.filter) goes through Mask.build: its table (C19), in particular the
+    # arm that re-masks an existing Mask (flags AND-ed, per-entry flags of a vectorised inner mask kept), is a necessary condition of "True is transparent"
+    from ..report import Check
+    from . import C19
+
+    tmp = Check("C19", chk.tier, chk.seed, write_evidence=False)
+    C19.run(tmp, prog)
+    viol = {(v["rule"], v["instance"]): v for v in tmp.violations}
+    n19 = 0
+    for o in tmp.obligations:
+        if not o["instance"].startswith("Mask.build"):
+            continue
+        n19 += 1
+        v = viol.get((o["rule"], o["instance"]))
+        if v:
+            chk.violation(v["rule"], v["instance"], v["construct"], v["derived"], v["expected"], v["where"])
+        else:
+            chk.ok(o["rule"], o["instance"], o["fact"])
+    chk.floor("Mask.build obligations (from C19)", n19, 1)
     chk.explanation = "structural-induction obligations for C14: mask (SCORE-GATE on 5 outputs, 4-row transition table by finite case split); each inner GFI call is an opaque atom (induction hypothesis), the derived provenance terms / linear forms are compared with the oracle table"
     for o in [o for o in obs.items if "C14" in o["props"]][:6]:
         chk.sample({"rule": o["rule"], "instance": o["instance"], "derived": o["derived"][:200], "expected": o["expected"][:160]})
